@@ -118,6 +118,16 @@ def corr_cases(ck, n):
         dz = npr.standard_normal((nb, 7 * c, He // 2, We // 2))
         bb = np.array([rng.choice([1e-2, 1.0])])
         yield rt.Case('F', 'ScatJ1_bwd', [sym, rot], [h0, h1] + ([h2] if rot else []) + [bb, xe, dz], {'rot': rot})
+        if it % 3 == 0:
+            # the second-order layer's hand-written backward pass (sides multiples of 8: the module then adds no extension)
+            m = 2 * rng.randint(1, 5)
+            qf = [gen.int_filter(rng, m) / 4 for _ in range(6)]
+            H8 = 8 * rng.randint(1, 2); W8 = 8 * rng.randint(1, 2)
+            c2 = rng.randint(1, 2)
+            x8 = npr.standard_normal((nb, c2, H8, W8)) * rng.choice([1.0, 1.0, 0.0])
+            dz8 = npr.standard_normal((nb, 49 * c2, H8 // 4, W8 // 4))
+            f = [h0, h1] + ([h2] if rot else []) + qf[:4] + (qf[4:] if rot else [])
+            yield rt.Case('F', 'ScatJ2_bwd', [rot], f + [bb, x8, dz8], {'rot': rot, 'order': 2})
 
 
 def oracle(ck, extended):
